@@ -147,16 +147,28 @@ func (p *c09) plant(r *lib.Rand, g *gen.SpecGen, doc map[string]any) *c09Plant {
 	paths, _ := doc["paths"].(map[string]any)
 	// pick an operation to host parameter / response plants
 	var opNode map[string]any
+	var opNodes []map[string]any
+	var opPaths []string
 	for _, pk := range sortedKeysAny(paths) {
 		item := paths[pk].(map[string]any)
 		for _, m := range []string{"post", "put", "get", "delete"} {
 			if o, ok := item[m].(map[string]any); ok {
-				opNode = o
-				break
+				opNodes = append(opNodes, o)
+				opPaths = append(opPaths, pk)
 			}
 		}
-		if opNode != nil {
-			break
+	}
+	pick := r.Intn(len(opNodes))
+	opNode = opNodes[pick]
+	if !strings.Contains(opPaths[pick], "{") && r.P(0.5) {
+		// an operation without any parameter and without response headers (nothing resets the
+		// validators' per-location state between the previous operation and this response)
+		delete(opNode, "parameters")
+		delete(opNode, "consumes")
+		for _, rv := range opNode["responses"].(map[string]any) {
+			if rm, ok := rv.(map[string]any); ok {
+				delete(rm, "headers")
+			}
 		}
 	}
 	params := func() []any { ps, _ := opNode["parameters"].([]any); return ps }
